@@ -31,7 +31,8 @@ CONSTANTS MinL, MaxL, \* root lengths MinL..MaxL
           MaxStep,   \* state constraint: |step| <= MaxStep (strides multiply without bound)
           MaxGen,    \* state constraint: frames produced by more than MaxGen conversions are not explored further
           Steps,     \* slice strides tried (None and non-zero integers)
-          Margin     \* slice / index arguments range over None and -(L+Margin)..(L+Margin)
+          Margin,    \* slice / index arguments range over None and -(L+Margin)..(L+Margin)
+          Reps       \* representations of the raw data a sequence can be constructed from
 
 VARIABLES L, off, mol, sid,    \* the frame
           idx, comp,           \* abstract view
@@ -276,8 +277,21 @@ ConvT(m) ==
        /\ gen' = IF sid' = "none" \/ (Len(idx) = 0 /\ sid' = "s") THEN gen + 1 ELSE Alt   \* the outcomes cogent3 takes
 Conv(m) == ConvT(m) /\ Log("Conv", <<m>>, "ok")
 
+(* Construction.  A sequence is made from raw data given as a str, bytes, a     *)
+(* tuple or list of characters, an array of alphabet indices, or an existing    *)
+(* view record / sequence, together with a name and an annotation offset.  The  *)
+(* constructed view is THE SAME for every representation: the root view of a    *)
+(* frame (Init describes it), so everything explored from a root holds for a    *)
+(* root made from any of them.  The harness builds the root from each           *)
+(* representation its constructor accepts and replays the root observations     *)
+(* and the transitions of the frame on it; data handed over as an existing      *)
+(* object must read the same afterwards.                                        *)
+IsRoot == gen = 0 /\ idx = Ident(L) /\ ~comp /\ v = New(L, None, None, 1, off, "s")
+MakeT(rep) == IsRoot /\ UNCHANGED vars
+Make(rep) == MakeT(rep) /\ Log("Make", <<rep>>, "ok")
+
 (* the symbol tables (once per root) *)
-Meta == /\ gen = 0 /\ idx = Ident(L) /\ ~comp /\ v = New(L, None, None, 1, off, "s")   \* at the roots
+Meta == /\ IsRoot
         /\ UNCHANGED vars
         /\ Emit([act |-> "Meta", compl |-> [dna |-> ComplDna, rna |-> ComplRna],
                  selfcompl |-> SelfCompl, exchange |-> Exchange, none |-> None])
@@ -287,6 +301,7 @@ Next == \/ \E a \in Args, b \in Args, k \in Steps : Slice(a, b, k)
         \/ Rc
         \/ \E sl \in BOOLEAN : Copy(sl)
         \/ \E m \in Mols : Conv(m)
+        \/ \E r \in Reps : Make(r)
         \/ Meta
 
 Spec == Init /\ [][Next]_vars
